@@ -111,6 +111,26 @@ def sums_layer(ctx, conn):
             ctx.count('partition-oracle')
             if rows and acc != total[0][0]:
                 ctx.record_violation('partition-sums', '%s: group sums %s != total %s' % (q, acc, total[0][0]))
+        # BALANCES is such a grouped sum: over the postings its WHERE clause selects, per account; its rows add up to the total
+        for at in ('', ' AT units', ' AT cost'):
+            stmt = 'BALANCES%s%s' % (at, w)
+            fx = {'': 'position', ' AT units': 'units(position)', ' AT cost': 'cost(position)'}[at]
+            try:
+                got = {r[0]: r[1] for r in conn.execute(stmt).fetchall()}
+                want = {r[0]: r[1] for r in conn.execute('SELECT account, sum(%s) FROM #postings%s GROUP BY account' % (fx, w)).fetchall()}
+                total = conn.execute('SELECT sum(%s) FROM #postings%s' % (fx, w)).fetchall()
+            except Exception as exc:  # noqa: BLE001
+                ctx.record_violation('balances-raises', '%s: %r' % (stmt, exc))
+                continue
+            ctx.evaluations += 1
+            ctx.count('balances-oracle')
+            acc = inventory.Inventory()
+            for inv in got.values():
+                acc.add_inventory(inv)
+            if set(got) != set(want) or any(not inv_close(got[k], want[k]) for k in got) or (total and not inv_close(acc, total[0][0])):
+                ctx.record_violation('balances-sums', '%s: %s, the selected postings sum per account to %s (total %s)' % (
+                    stmt, {k: str(v) for k, v in got.items()}, {k: str(v) for k, v in want.items()}, total[0][0] if total else None),
+                    payload={'query': stmt})
         # homomorphism identities on the implementation
         # dates inside the ledger's span, so that prices before and after them differ
         pdates = sorted({r[0] for r in conn.execute('SELECT date FROM #prices').fetchall()})
